@@ -245,3 +245,32 @@ Definition rlp_uints (l : list N) : list N := rlp_list (flat_map rlp_uint l).
 Definition enc_bi (b : binfo) : list N :=
   rlp_list (rlp_uints (bi_last b) ++ rlp_uints (map N.of_nat (bi_cr b)) ++
             rlp_list (flat_map (fun l => rlp_uints (map N.of_nat l)) (bi_by b))).
+
+(* ---------- Round 5: Reset of the SAME Index object ----------
+   vecfc.Index.Reset(validators, db, getEvent): Engine.Reset re-wraps the DB in a new flushable (unflushed writes of
+   the old wrapper are gone), installs the validators, sets vi.bi = nil (its DropNotFlushed finds no pending pairs, so
+   the OnDropNotFlushed callback does NOT fire); then Index.Reset itself purges cache.ForklessCause and calls
+   onDropNotFlushed (HB/LA caches purged).  All three caches keep their capacities.  The weights may change (they are
+   read at query time), the DB may be the same one (ce_reset_same: validator count unchanged) or another, e.g. the
+   empty DB of a new epoch (ce_reset_fresh: any validator count, new event store). *)
+Definition purge_b (c : bcache) : bcache := fst (Wlru.purge c).
+Definition ce_reset_same (ce : ceng) : ceng :=
+  {| ce_p := p_restart (ce_p ce); ce_dirty := false; ce_hbc := purge_b (ce_hbc ce); ce_lac := purge_b (ce_lac ce);
+     ce_fc := fcache_purge (ce_fc ce) |}.
+Definition ce_reset_fresh (n' : nat) (ce : ceng) : ceng :=
+  {| ce_p := p_init n'; ce_dirty := false; ce_hbc := purge_b (ce_hbc ce); ce_lac := purge_b (ce_lac ce);
+     ce_fc := fcache_purge (ce_fc ce) |}.
+
+(* histories in which the object is reused: the weight table / validator set current at query time is recorded
+   with every answer *)
+Definition rout := (list N * nat * cout)%type.
+Record rstate := { r_ws : list N; r_n : nat; r_ce : ceng; r_out : list cout; r_arch : list rout }.
+Inductive rop := RO (o : cop) | RResetSame (ws' : list N) | RResetFresh (ws' : list N) (n' : nat).
+Definition rstep (st : rstate) (o : rop) : rstate :=
+  let arch := map (fun x => (r_ws st, r_n st, x)) (r_out st) ++ r_arch st in
+  match o with
+  | RO o => let '(ce, out) := cstep (r_ws st) (quorum_of (r_ws st)) (r_ce st, r_out st) o in
+            {| r_ws := r_ws st; r_n := r_n st; r_ce := ce; r_out := out; r_arch := r_arch st |}
+  | RResetSame ws' => {| r_ws := ws'; r_n := r_n st; r_ce := ce_reset_same (r_ce st); r_out := []; r_arch := arch |}
+  | RResetFresh ws' n' => {| r_ws := ws'; r_n := n'; r_ce := ce_reset_fresh n' (r_ce st); r_out := []; r_arch := arch |} end.
+Definition r_answers (st : rstate) : list rout := map (fun x => (r_ws st, r_n st, x)) (r_out st) ++ r_arch st.
